@@ -101,8 +101,9 @@ def make_dist(cfg, table):
 def make_data(cfg):
     if cfg["dist"] == "table":
         return absstate.make_data(cfg["n"], kind="flat", grid=3)
+    # unequal cluster sizes: data points carry different outlier priors, as clustered input gives
     return absstate.make_data(cfg["n"], dims=cfg.get("dims", 1), grid=5, seed=cfg.get("dseed", 0), kind="int",
-                              outlier_prob=(0.2 if cfg["outl"] else 0.0))
+                              outlier_prob=(0.2 if cfg["outl"] else 0.0), sizes=[(1, 3, 2)[i % 3] for i in range(cfg["n"])])
 
 
 def make_sampler(cfg, td, rng, which="tree"):
